@@ -136,6 +136,14 @@ static void CloseTarget(void) {
         if (fseek(TargFile, AHeader, SEEK_SET) == -1) {
             ChkIO(TargName);
         }
+        /* an empty image has no last byte that could take the checksum */
+
+        if (FileSize(TargFile) <= AHeader) {
+            if (fclose(TargFile) == EOF) {
+                ChkIO(TargName);
+            }
+            return;
+        }
         Size = Rest = FileSize(TargFile) - AHeader - 1;
 
         Sum = 0;
